@@ -337,6 +337,14 @@ def c10(si, arrs, G, tmin, statuses, legal, ties=False, subsets_max=4, query_ext
                                 % (v, q, gs.get(v), si.node_status(v, q), want))); break
             if bad:
                 break
+            # an explicit node subset must give exactly those nodes, with the same answers
+            sub = nodes[::2]
+            try:
+                gsub = si.get_statuses(nodelist=list(sub), time=q)
+                if set(gsub) != set(sub) or any(gsub[v] != status_at(hist[v], q) for v in sub):
+                    bad.append(("query_subset", "get_statuses(nodelist=%r, time=%r) = %r" % (list(sub), q, gsub))); break
+            except Exception as e:
+                bad.append(("query_exc", "get_statuses(nodelist=%r, time=%r) raised %r" % (list(sub), q, e))); break
     return bad
 
 
